@@ -10,7 +10,10 @@ other checkout. There is no network. In every shell call first run:
 
     export GOFLAGS=-mod=mod GOPROXY=off GOSUMDB=off GOTOOLCHAIN=local
 
-The existing test suite is `go test -vet=off -count=1 ./...` run from {wt} (about 10-20 s).
+The existing test suite is `go test -vet=off -count=1 ./...` run from {wt} (about 10-20 s; it is randomly seeded, so run it a few times).
+Never use `git stash` (the stash is shared between worktrees); use `git diff > file`, `git checkout -- .`, `git apply file`.
+First create {wt}/mutants/go.mod containing the single line `module mutants` so that `./...` ignores that directory.
+Files named verif_*.go and calls to verifSched/verifCount are inert test instrumentation: leave them alone.
 
 ## The property
 
